@@ -208,6 +208,11 @@ def vh(args, timeout=3600, name="vh"):
     except subprocess.TimeoutExpired:
         return {"crashed": "timeout", "output": "", "wall_s": timeout}
     dt = time.time() - t
+    if p.returncode == 97 and os.path.exists(rp + ".hang"):
+        # the harness's wall-clock watchdog: a call spun for WATCHDOG_SECS without touching a socket
+        hang = json.load(open(rp + ".hang"))
+        os.remove(rp + ".hang")
+        return {"crashed": 97, "hang": hang, "output": p.stdout[-2000:], "wall_s": dt}
     if p.returncode != 0 or not os.path.exists(rp):
         return {"crashed": p.returncode, "output": p.stdout[-4000:], "wall_s": dt}
     r = json.load(open(rp))
@@ -271,6 +276,11 @@ class Verdict:
         self.notes = []
 
     def add_report(self, rep, origin=""):
+        if rep.get("crashed") == 97 and "hang" in rep:
+            ctx = re.sub(r"[0-9a-f]{16,}", "..", str(rep["hang"].get("context", "")))[:80]
+            self.violations.append((f"a call does not return (spins without socket operations; wall-clock watchdog) [{origin}] {ctx.split(' cfg ')[0]}",
+                                    dict(rep["hang"], origin=origin)))
+            return
         if "crashed" in rep:
             self.violations.append((f"harness process crashed ({origin}) rc={rep['crashed']}",
                                     {"kind": "process-crash", "origin": origin, "output": rep.get("output", "")}))
